@@ -10,6 +10,14 @@ def pwEq (hash pw : Bytes) : Bool := hash == pw
 structure S where
   cfg : Cfg := { enabled := false, whitelist := [], hash := [], maxSessions := 0 }
   sessions : Int := 0
+  live : List String := [] -- ids of sessions opened by `open` and not yet closed
+  rawHash : Bool := false  -- `reseth`: the configured hash is a raw string, not a bcrypt hash of an offered password
+
+/-- bcrypt stand-in of the scripts: equality with the clear-text password of `reset`; a `reseth` hash
+    matches nothing -/
+def S.pw (s : S) : Bytes → Bytes → Bool := fun h p => !s.rawHash && pwEq h p
+
+def counts (sessions : Int) (live : Nat) : String := s!" counter={sessions} live={live}"
 
 def hexAll (ts : List String) : Option (List Bytes) := ts.mapM bytesOfHex
 
@@ -63,8 +71,8 @@ def showSurface (pty : Bool) (e : ExecSurface) : String :=
   " argv=" ++ ",".intercalate (e.argv.map hexTok) ++ " env=" ++ inh ++ ":" ++ first ++
     (if sorted.isEmpty then "-" else ",".intercalate (sorted.map (fun x => hexTok x.toUTF8.toList))) ++ " dir=" ++ hexTok e.dir
 
-def step (s : S) (line : String) : S × String :=
-  match tokens line with
+def stepRest (s : S) (toks : List String) : S × String :=
+  match toks with
   | "reset" :: ts =>
     match parseReset ts with
     | some c => ({ cfg := c, sessions := 0 }, "ok")
@@ -72,7 +80,7 @@ def step (s : S) (line : String) : S × String :=
   | "admit" :: ts =>
     match parseMeta ts with
     | some m =>
-      let (v, n) := validateAndAcquire pwEq s.cfg m s.sessions
+      let (v, n) := validateAndAcquire s.pw s.cfg m s.sessions
       ({ s with sessions := n }, showV v n)
     | none => (s, "bad-op")
   | op :: ts =>
@@ -80,13 +88,13 @@ def step (s : S) (line : String) : S × String :=
       match parseMeta ts with
       | some m =>
         -- admitted sessions are started and immediately closed by the harness: slot released again
-        let (v, n) := validateAndAcquire pwEq s.cfg m s.sessions
+        let (v, n) := validateAndAcquire s.pw s.cfg m s.sessions
         (s, showV v n)
       | none => (s, "bad-op")
     else if op == "exec" || op == "execp" then
       match parseExec ts with
       | some m =>
-        let (v, n) := validateAndAcquire pwEq s.cfg m s.sessions
+        let (v, n) := validateAndAcquire s.pw s.cfg m s.sessions
         let line := showV v n
         if v == .ok then
           let sf := showSurface (op == "execp") (execSurface (op == "execp") "vt100".toUTF8.toList m)
@@ -96,7 +104,7 @@ def step (s : S) (line : String) : S × String :=
     else if op == "argv" || op == "argvp" then
       match parseMeta ts with
       | some m =>
-        let (v, n) := validateAndAcquire pwEq s.cfg m s.sessions
+        let (v, n) := validateAndAcquire s.pw s.cfg m s.sessions
         let line := showV v n
         if v == .ok then
           let av := ",".intercalate ((processArgv m).map hexTok)
@@ -111,6 +119,36 @@ def step (s : S) (line : String) : S × String :=
     else (s, "bad-op")
   | _ => (s, "bad-op")
 
+def step (s : S) (line : String) : S × String :=
+  match tokens line with
+  | "reseth" :: ts =>
+    match parseReset ts with
+    | some c => ({ cfg := c, sessions := 0, rawHash := true }, "ok")
+    | none => (s, "bad-op")
+  | "open" :: id :: ts =>
+    match parseMeta ts with
+    | some m =>
+      let (v, n) := validateAndAcquire s.pw s.cfg m s.sessions
+      if v == .ok then ({ s with sessions := n, live := id :: s.live }, showV v n ++ counts n (s.live.length + 1))
+      else (s, showV v n ++ counts n s.live.length)
+    | none => (s, "bad-op")
+  | ["close", id] =>
+    if s.live.contains id then
+      let n := release s.sessions
+      ({ s with sessions := n, live := s.live.erase id }, "closed" ++ counts n (s.live.length - 1))
+    else (s, "closed" ++ counts s.sessions s.live.length)
+  | "fails" :: pw :: cmd :: _dir :: args => failStart s pw cmd args
+  | "failp" :: pw :: cmd :: _dir :: args => failStart s pw cmd args
+  | ts => stepRest s ts
+where
+  /-- admitted, slot acquired, the start fails, the slot is released exactly once -/
+  failStart (s : S) (pw cmd : String) (args : List String) : S × String :=
+    match parseMeta (pw :: cmd :: args) with
+    | some m =>
+      let (v, n) := validateAndAcquire s.pw s.cfg m s.sessions
+      if v == .ok then (s, "startfail" ++ counts s.sessions s.live.length) else (s, showV v n ++ counts n s.live.length)
+    | none => (s, "bad-op")
+
 /-- Executable statement on the implementation's own answer: a request answered `ok n` must be an
     authorised one and `n` must respect the limit; a stress run must not exceed it. -/
 def spec (s : S) (op : String) (implOut : String) : S × String :=
@@ -119,15 +157,32 @@ def spec (s : S) (op : String) (implOut : String) : S × String :=
     match parseReset ts with
     | some c => ({ cfg := c, sessions := 0 }, "ok")
     | none => (s, "ok")
+  | "reseth" :: ts =>
+    match parseReset ts with
+    | some c => ({ cfg := c, sessions := 0, rawHash := true }, "ok")
+    | none => (s, "ok")
   | "stress" :: _ =>
     (s, if tokens implOut == ["stress", "ok"] then "ok" else "fail sessions-exceeded")
   | "stressv" :: _ =>
     (s, if tokens implOut == ["stress", "ok"] then "ok" else "fail sessions-exceeded")
   | kind :: ts =>
-    if kind == "exec" || kind == "execp" then
+    if kind == "open" || kind == "close" || kind == "fails" || kind == "failp" then
+      -- counter == live sessions after every op; live never above a positive limit; an opened session was authorised
+      let out := tokens implOut
+      let field (pre : String) : Option Int :=
+        (out.find? (·.startsWith pre)).bind (fun t => (t.drop pre.length).toString.toInt?)
+      match field "counter=", field "live=" with
+      | some c, some l =>
+        if c != l then (s, "fail counter-differs-from-live")
+        else if s.cfg.maxSessions > 0 ∧ l > s.cfg.maxSessions then (s, "fail sessions-exceeded")
+        else if kind == "open" && out.head? == some "ok" &&
+            (match parseMeta (ts.drop 1) with | some m => !authorised s.pw s.cfg m | none => false) then (s, "fail unauthorised-start")
+        else (s, "ok")
+      | _, _ => (s, if out.head? == some "panic" then "fail crashed" else "ok")
+    else if kind == "exec" || kind == "execp" then
       match parseExec ts, tokens implOut with
       | some m, "ok" :: _ :: av :: _ =>
-        if !authorised pwEq s.cfg m then (s, "fail unauthorised-start")
+        if !authorised s.pw s.cfg m then (s, "fail unauthorised-start")
         else if av.startsWith "argv=" && av != "argv=" ++ ",".intercalate ((processArgv m).map hexTok) then (s, "fail argv-differs-from-validated")
         else (s, "ok")
       | _, "panic" :: _ => (s, "fail crashed")
@@ -135,7 +190,7 @@ def spec (s : S) (op : String) (implOut : String) : S × String :=
     else if kind == "argv" || kind == "argvp" then
       match parseMeta ts, tokens implOut with
       | some m, ["ok", _, av] =>
-        if !authorised pwEq s.cfg m then (s, "fail unauthorised-start")
+        if !authorised s.pw s.cfg m then (s, "fail unauthorised-start")
         else if av == "argv=-" then (s, "ok")
         else if av != "argv=" ++ ",".intercalate ((processArgv m).map hexTok) then (s, "fail argv-differs-from-validated")
         else (s, "ok")
@@ -144,7 +199,7 @@ def spec (s : S) (op : String) (implOut : String) : S × String :=
     else if kind == "admit" || kind == "session" || kind == "pty" then
       match parseMeta ts, tokens implOut with
       | some m, ["ok", n] =>
-        if !authorised pwEq s.cfg m then (s, "fail unauthorised-start")
+        if !authorised s.pw s.cfg m then (s, "fail unauthorised-start")
         else match n.toInt? with
           | some k => if s.cfg.maxSessions > 0 ∧ k > s.cfg.maxSessions then (s, "fail sessions-exceeded") else (s, "ok")
           | none => (s, "fail bad-count")
